@@ -51,4 +51,18 @@ PROPS = {
         assumptions=["numeric agreement within 2^-30*(|q| + scale): projection and normalisation are evaluated in binary64 by the implementation"],
         correspondence_only=["text output at --precision p (decided with the text model under C07)"],
     ),
+    "C03": dict(
+        theorems=["chooseFast_eq", "hyper_eq", "hyper_sum_one", "hyper_full", "projectValue_cons", "project_eq_spec", "projectIter_eq",
+                  "project_ok_iff", "zero_is_error", "dimension_is_error", "larger_is_error", "project_mass", "project_id",
+                  "project_nonneg", "hyper_compose", "project_project"],
+        nontrivial=r"^(project-d[1-9]|project-two-step$|pmf-.*-pos|project-err)",
+        rule="Spectrum::project in-process on every admissible target (<= 40 sampled per shape in quick) of all shapes 1-2 axes x 1..7, 3 axes x 1..3, 4 axes x 1..2 "
+             "(thorough: 1-3 x 1..7, 4 x 1..3), odd-integer data and unit vectors (single operator rows), two-step vs direct, rejected targets (larger, zero, other dimensionality); "
+             "hypergeometric_pmf coefficients at N in {1,2,3,169..172,500,1029,1030,2000,5000} x 120 (thorough 400) (K,n,k) probes around the mode; "
+             "compared with exact rationals within 2^-30 relative; non-trivial = distinct request with a non-identity target, a positive coefficient or an error",
+        exhaustive=True,
+        assumptions=["binary64 evaluation (ln_gamma, exp, rounding of binomials) is compared within 2^-30*(|q|+scale), not proved; 'finite for thousands of chromosomes' is decided by the coefficient probes only"],
+        correspondence_only=["finite results at sizes of thousands of chromosomes (f64 range)", "projection commutes with marginalization (explored via C13 chains)",
+                             "project after create = project during create (stated and proved on the create model under C02)"],
+    ),
 }
